@@ -256,7 +256,7 @@ package protocol
 // ---- C05: header serialisation cannot be used to inject lines ----
 
 //@ func newlineToSpace(val) r
-//@   props C05, C03
+//@   props C05, C03, C04
 //@   allocates
 //@   top-ensures len(r) == len(val) && fresh(r) && forall(k, 0, len(r), r[k] != '\r' && r[k] != '\n')
 //@   loop 0:
@@ -266,7 +266,7 @@ package protocol
 // appendHeaderLine appends nothing (invalid field name) or exactly one line "key: value CRLF" whose
 // only CR and LF bytes are the two terminator bytes it writes itself.
 //@ func appendHeaderLine(dst, key, value) r
-//@   props C05, C03
+//@   props C05, C03, C04
 //@   alias dst
 //@   modifies spare(dst)
 //@   allocates
